@@ -147,7 +147,22 @@ def gen_pitzer():
     for f in ("G", "GP"):
         ff = leaf.load_function(src, f)
         leaves.append(ff.leaf("pz_%s_body" % f, lhs="d", kind="assign", under=["L_Y != 0.0"], vars=["L_Y"], allow_new_vars=False))
-    return leaf.emit_coq(leaves, header="C16: Phreeqc::pitzer, G, GP (pitzer.cpp): increments of the Pitzer sums per parameter type"), leaves
+    # pitzer_tidy: the data-dependent weights of the LAMBDA (neutral-x) and MU (neutral-neutral-x) terms
+    ft = leaf.load_function(src, "pitzer_tidy")
+    LA, MU_ = "pitz_params[i]->type == TYPE_LAMBDA", "pitz_params[i]->type == TYPE_MU"
+    OS, LN0, LN1, LNJ = "pitz_params[i]->os_coef", "pitz_params[i]->ln_coef[0]", "pitz_params[i]->ln_coef[1]", "pitz_params[i]->ln_coef[j]"
+    DIST3 = "!(i0 == i1 || i1 == i2 || i0 == i2)"
+    for nm, lhs, und, nth in [
+            ("tidy_LA_os_self", OS, [LA, "i0 == i1"], None), ("tidy_LA_ln0_self", LN0, [LA, "i0 == i1"], None), ("tidy_LA_ln1_self", LN1, [LA, "i0 == i1"], None),
+            ("tidy_LA_os_dist", OS, [LA, "!(i0 == i1)"], None), ("tidy_LA_ln0_dist", LN0, [LA, "!(i0 == i1)"], None), ("tidy_LA_ln1_dist", LN1, [LA, "!(i0 == i1)"], None),
+            ("tidy_MU_os_dist_nnn", OS, [MU_, "count_neut == 3", DIST3], None), ("tidy_MU_os_dist", OS, [MU_, DIST3], -1),
+            ("tidy_MU_ln_ion_dist", LNJ, [MU_, "spec[pitz_params[i]->ispec[j]]->z < 0 || spec[pitz_params[i]->ispec[j]]->z > 0", "!(count[0] > 1 || count[1] > 1)"], None),
+            ("tidy_MU_ln_neutral_dist", LNJ, [MU_, "count[j] == 1", "!(count[0] > 1 || count[1] > 1)"], None)]:
+        leaves.append(ft.leaf(nm, lhs=lhs, kind="assign", under=und, nth=nth, vars=[], allow_new_vars=False))
+    # no other assignment to these weights in a TYPE_LAMBDA context (e.g. a later override)
+    extra = "Definition tidy_LAMBDA_assignments : nat := %d.\n" % len(
+        [x for x in ft.sites if ("os_coef" in x.lhs or "ln_coef" in x.lhs) and any(c == LA for t, c in x.conds if t == "if")])
+    return leaf.emit_coq(leaves, header="C16: Phreeqc::pitzer, G, GP, pitzer_tidy (pitzer.cpp): increments of the Pitzer sums per parameter type", extra=extra), leaves
 
 
 def gen_sit():
